@@ -98,3 +98,39 @@ func rtpTimestamp2Ms(ts uint32, clockRate int) int64 {
 	}
 	return int64(uint64(ts) * 1000 / uint64(clockRate))
 }
+
+// rtpTimestampExtender 将32位的rtp时间戳扩展成64位再转换成毫秒
+//
+// rtp时间戳的初始值是随机的，并且会回绕（90000的时钟频率下大约13小时一次）。直接用32位的值转换，回绕时输出的毫秒时间戳会跳回0。
+// 每个unpacker持有一个，按包的处理顺序喂入。回绕前后少量乱序的包（比回绕点早的包晚到）也能得到正确的值。
+type rtpTimestampExtender struct {
+	inited bool
+	last   uint32
+	high   uint64 // 已经回绕的次数 << 32
+}
+
+func (e *rtpTimestampExtender) toMs(ts uint32, clockRate int) int64 {
+	if clockRate <= 0 {
+		return int64(ts)
+	}
+	if !e.inited {
+		e.inited = true
+		e.last = ts
+		return int64(uint64(ts) * 1000 / uint64(clockRate))
+	}
+	ext := e.high + uint64(ts)
+	if ts < e.last && e.last-ts > 0x80000000 {
+		// 向前回绕
+		e.high += 1 << 32
+		ext = e.high + uint64(ts)
+		e.last = ts
+	} else if ts > e.last && ts-e.last > 0x80000000 {
+		// 回绕之后到达的、属于回绕之前的包
+		if e.high >= 1<<32 {
+			ext = e.high - (1 << 32) + uint64(ts)
+		}
+	} else if ts > e.last {
+		e.last = ts
+	}
+	return int64(ext * 1000 / uint64(clockRate))
+}
